@@ -15,7 +15,7 @@ def run(ctx, sess):
     ctx.rule('C01.a', 'the cached level-1 index/summary is reused only when its chunk_meta matches the requested signal id and the sample lies in its range')
     ctx.rule('C01.c', '"whatever reads were issued before": sample bytes in the core read buffer are used only after a checked read or reconstruction of that block succeeded on the same path (no block is served from what an earlier call left in the buffer)')
     ctx.rule('C01.d', '"whatever the first sample id was": the first block of a signal, which carries the sample-id offset, is always stored (omission masked by "a data chunk already exists")')
-    ctx.rule('C01.e', '"whatever the first sample id was": the sample_id_offset is applied exactly once to each id and no compare mixes an api-relative id with a file id, in every reader function that mentions the offset')
+    ctx.rule('C01.e', '"whatever the first sample id was": the sample_id_offset is applied exactly once to each id and no compare mixes an api-relative id with a file id, in every function of the sample read path that mentions the offset')
     ctx.rule('C01.f', 'seek descent: in the index descent of jls_core_fsr_seek / jls_core_ts_seek no compound-updated local (other than the level counter) carries a value from one level into the next; the step size of a level is computed from the definition and that level alone')
     ctx.rule('C01.g', '"the reader reports exactly the number of samples": at close every FSR summary level whose index holds entries is written, unless its single entry is the first chunk of the level below and the level has no chunk on disk (then that chunk is reachable through its own track head)')
     ctx.rule('C01.h', '"the reader reports exactly the number of samples": a block is omitted only when it is full; the sample count of a partial block exists only in its data chunk')
@@ -85,7 +85,7 @@ def run(ctx, sess):
     from .c15 import full_block_only
     full_block_only(ctx, P, 'C01.h')
     from .frames import frames_rule
-    frames_rule(ctx, P, 'C01.e')
+    frames_rule(ctx, P, 'C01.e', kinds=('samples',), minimum=3)
     descent_purity(ctx, P, 'C01.f')
     from .c06 import sample_bytes_rule
     sample_bytes_rule(ctx, P, 'C01.i')
